@@ -141,7 +141,7 @@ class DilatedPair:
 class ScriptDriver:
     """Random application script over subchannels: listen / open / write / close on both sides."""
 
-    def __init__(self, dp, rng, names=("p0", "p1"), max_opens=3, max_writes=30, sizes=(1, 10, 200, 5000, 70000),
+    def __init__(self, dp, rng, names=("p0", "p1"), max_opens=3, max_writes=30, sizes=(1, 10, 200, 5000, 70000, (65490, 65545), (131010, 131070)),
                  late_listen=0.3, half=0.0, close_prob=0.5, listen_names=None):
         self.dp, self.rng = dp, rng
         self.world = dp.world
@@ -202,6 +202,8 @@ class ScriptDriver:
         if payload is None:
             self.counter += 1
             size = self.rng.choice(self.sizes)
+            if isinstance(size, tuple):       # (lo, hi): a boundary region, every length in it equally likely
+                size = self.rng.randint(*size)
             tag = ("%s:%d:" % (p.name, self.counter)).encode()
             payload = tag + self.rng.randbytes(max(0, size - len(tag)))
         if not hasattr(p, "sent"):
